@@ -8,6 +8,8 @@ import (
 // v is the header binder for header request body.
 type HeaderBinding struct {
 	EnableSplitting bool
+	// Immutable makes the binder copy keys and values out of the request buffers
+	Immutable bool
 }
 
 // Name returns the binding name.
@@ -26,6 +28,9 @@ func (b *HeaderBinding) Bind(req *fasthttp.Request, out any) error {
 
 		k := utils.UnsafeString(key)
 		v := utils.UnsafeString(val)
+		if b.Immutable {
+			k, v = string(key), string(val)
+		}
 		err = formatBindData(out, data, k, v, b.EnableSplitting, false)
 	})
 
@@ -39,4 +44,5 @@ func (b *HeaderBinding) Bind(req *fasthttp.Request, out any) error {
 // Reset resets the HeaderBinding binder.
 func (b *HeaderBinding) Reset() {
 	b.EnableSplitting = false
+	b.Immutable = false
 }
